@@ -33,8 +33,12 @@ def check_span(ctx, syn, res):
     cpath, cfn = conv
     # impl Token { fn start(&self) -> ByteIndex; fn content_len(&self) -> usize } in the same file
     start_fn = len_fn = None
-    for (p, impl, fn) in syn.all_fns(path=cpath):
-        if impl is not None and impl["self_ty"].strip() == "Token":
+    # (in the same file today; the impl block may live next to the type just as well)
+    cands = [(p, impl, fn) for (p, impl, fn) in syn.all_fns(path=cpath) if impl is not None and impl["self_ty"].strip() == "Token"]
+    if not cands:
+        cands = [(p, impl, fn) for (p, impl, fn) in syn.all_fns() if impl is not None and impl["self_ty"].strip() == "Token" and not p.endswith("/parser.rs") and len(fn["inputs"]) == 1]
+    for (p, impl, fn) in cands:
+        if True:
             if (fn["output"] or "").strip() == "ByteIndex":
                 start_fn = fn
             elif (fn["output"] or "").strip() == "usize":
